@@ -232,7 +232,7 @@ CLAIMED = {
          "correspondence against the real lighttpd with recording FastCGI / SCGI / HTTP backends x stream-request-body 0/1/2 x bodies to 1.1 MiB "
          "(5 MiB thorough) in Content-Length / chunked framing and adversarial segmentation (incl. spooling to temporary files), PARAMS bytes "
          "compared with the model's encoding, variables with the model's, everything judged by an RFC 3875 / RFC 9110 monitor",
-    note="PARTIAL: socket/configuration-derived variables, uwsgi, CGI's execve environment, mod_proxy's rewriting and HTTP/2 request bodies are "
+    note="CGI-type requests are also sent over HTTP/2 (bodies within the initial window); PARTIAL: socket/configuration-derived variables, uwsgi, CGI's execve environment, mod_proxy's rewriting and HTTP/2 request bodies are "
          "monitor-only; lighttpd answers 411 to a chunked body it would have to stream to a CGI-type backend (nothing forwarded: not judged); body "
          "spooling itself is C17's theorem; trusted: Coq kernel, extraction, lib/srv.py, lib/backend.py, python monitor",
     technique="Coq proof over executable model + differential correspondence (extracted OCaml vs real lighttpd with recording backends) + RFC 3875 monitor",
@@ -245,7 +245,7 @@ CLAIMED = {
          "of every size with padding that looks like records, interleaved STDERR/unknown records, boundary-aimed TCP segmentation, truncation/reset at "
          "aimed and random offsets, malformed framing) x stream-response-body 0/1/2, judged by C04's strict client parser and a monitor: same status, "
          "end-to-end headers and body; broken streams never arrive as complete 2xx/3xx; the next pipelined request is unaffected",
-    note="PARTIAL: response-head translation (Status:, Location, NPH, 1xx, trailers, hop-by-hop) is monitor-only; incremental parsing is tied to the "
+    note="every fourth scenario is also fetched by an HTTP/2 client (END_STREAM without RST_STREAM is what 'complete' means there); PARTIAL: response-head translation (Status:, Location, NPH, 1xx, trailers, hop-by-hop) is monitor-only; incremental parsing is tied to the "
          "whole-stream model by correspondence; 1 known finding (partial body under a computed Content-Length when the backend fails before headers "
          "were sent); invalid backend header lines are skipped by lighttpd and not judged; HTTP/2 clients, AJP13, uwsgi, CGI (see C04) not run here; "
          "trusted: Coq kernel, extraction, lib/srv.py, lib/backend.py, python monitor",
